@@ -8,6 +8,7 @@ import json
 import os
 import random
 import re
+import math
 import struct
 import subprocess
 import sys
@@ -336,14 +337,57 @@ class Prop:
     def impl_lines(self, case):
         return []
 
+    # A slice whose model mirrors the code's floating-point operation order compares hex doubles as strings.  With
+    # LAST_DIGITS = r (None = off) two lines of the same shape whose tokens are equal or hex doubles that differ by at most
+    # r * max(|a|, |b|, largest magnitude on the line) count as equal; the number of such lines goes to the evidence
+    # (`last_digit_deviations`).  Reason: an equivalent respelling of the arithmetic (a * (b / c) for a * b / c) moves last
+    # digits and is no change of behaviour for a property about real numbers; every other token (counts, classes, flags,
+    # error names) stays exact.
+    LAST_DIGITS = None
+
+    def _lines_near(self, a, b):
+        ta, tb = a.split(), b.split()
+        if len(ta) != len(tb):
+            return False
+        vals = []
+        for x, y in zip(ta, tb):
+            if x == y:
+                if len(x) == 16:
+                    try:
+                        vals.append(abs(h2f(x)))
+                    except ValueError:
+                        pass
+                continue
+            if len(x) != 16 or len(y) != 16:
+                return False
+            try:
+                vals.append((h2f(x), h2f(y)))
+            except ValueError:
+                return False
+        scale = max([v for v in vals if isinstance(v, float) and v == v and v != math.inf] +
+                    [max(abs(v[0]), abs(v[1])) for v in vals if isinstance(v, tuple) and all(w == w and abs(w) != math.inf for w in v)] + [0.0])
+        for v in vals:
+            if isinstance(v, tuple):
+                x, y = v
+                if x != x or y != y or abs(x) == math.inf or abs(y) == math.inf or x == y or abs(x - y) > self.LAST_DIGITS * scale:
+                    return False                # (x == y with different bits: +0.0 / -0.0 - a sign, not a last digit)
+        return True
+
     def compare(self, case, model_out, impl_out):
         """None if equal, else description."""
         if model_out == impl_out:
             return None
+        near = 0
         for i, (a, b) in enumerate(zip(model_out, impl_out)):
             if a != b:
+                if self.LAST_DIGITS is not None and self._lines_near(a, b):
+                    near += 1
+                    continue
                 return f"line {i}: model={a[:300]!r} impl={b[:300]!r}"
-        return f"length {len(model_out)} vs {len(impl_out)}"
+        if len(model_out) != len(impl_out):
+            return f"length {len(model_out)} vs {len(impl_out)}"
+        self.stats["last_digit_deviations"] = self.stats.get("last_digit_deviations", 0) + near
+        return None
 
     def oracle(self, case):
         """Evaluate the property itself on the implementation.  Returns None (holds) or
